@@ -514,21 +514,26 @@ func c05unnamed(c *core.Ctx) {
 		return
 	}
 	loop, sorted := false, false
-	ast.Inspect(d.Decl.Body, func(n ast.Node) bool {
+	inspectDeep(c, d, 1, func(hd *core.DeclSite, n ast.Node) bool {
+		var body *ast.BlockStmt
 		switch x := n.(type) {
 		case *ast.RangeStmt:
-			if strings.HasSuffix(core.ExprStr(x.X), ".TypesList()") || core.ExprStr(x.X) == "unnamed" || core.ExprStr(x.X) == "types" {
-				ast.Inspect(x.Body, func(m ast.Node) bool {
-					if call, ok := m.(*ast.CallExpr); ok && core.ExprStr(call.Fun) == "collectUserTypes" {
-						loop = true
-					}
-					return true
-				})
-			}
+			body = x.Body
+		case *ast.ForStmt:
+			body = x.Body
 		case *ast.CallExpr:
-			if core.ExprStr(x.Fun) == "sort.Strings" {
+			if f := core.ExprStr(x.Fun); f == "sort.Strings" || f == "sort.Slice" || f == "sort.SliceStable" || f == "slices.Sort" {
 				sorted = true
 			}
+		}
+		if body != nil {
+			// a loop (over the types of the schema) whose body collects from a type's root node
+			ast.Inspect(body, func(m ast.Node) bool {
+				if call, ok := m.(*ast.CallExpr); ok && core.ExprStr(call.Fun) == "collectUserTypes" {
+					loop = true
+				}
+				return true
+			})
 		}
 		return true
 	})
